@@ -137,7 +137,7 @@ pub fn set_yield_at_syscalls(on: bool) {
 fn sys_point(site: &'static str) {
     let on = YIELD_AT_SYSCALLS.try_with(|c| c.get()).unwrap_or(false);
     if on && with_armed(|_| ()).is_some() {
-        crate::c14::sched::hook(site);
+        crate::c14::sched::hook_no_unwind(site);
     }
 }
 
@@ -195,6 +195,8 @@ pub fn errno_name(e: i32) -> &'static str {
         libc::EBUSY => "EBUSY",
         libc::ETXTBSY => "ETXTBSY",
         libc::EAGAIN => "EAGAIN",
+        libc::ETIMEDOUT => "ETIMEDOUT",
+        libc::EPIPE => "EPIPE",
         _ => "E?",
     }
 }
